@@ -188,6 +188,16 @@ Theorem written_default_exact : forall f,
 Proof. exact written_default_exact_lemma. Qed.
 Print Assumptions written_default_exact.
 
+(* -- a location that carries a mapping but an address BELOW the mapping's start (typically 0) is
+   not the frame at Start + address: their mapping-relative addresses differ in uint64 arithmetic, so
+   they are different identities and merge_exact keeps their weights apart -- *)
+Theorem below_start_distinct : forall p l1 l2 m,
+  lookup_map p (l_mapping l1) = Some m -> l_mapping l2 = l_mapping l1 ->
+  0 <= l_addr l1 < m_start m -> m_start m < two64 -> l_addr l2 = m_start m + l_addr l1 ->
+  frame_ident_of p l1 <> frame_ident_of p l2.
+Proof. exact below_start_distinct_lemma. Qed.
+Print Assumptions below_start_distinct.
+
 (* -- the model compares sample keys as tuples, the Go code as varint byte strings: the byte
    encoding (compared with the real sampleKey byte for byte on every run) is injective on keys whose
    ids are non-zero uint64, numeric values int64 and lengths < 2^64 -- *)
